@@ -109,7 +109,7 @@ theorem fix_el {tbl : Table} {f : Elem} (h : tbl.lookup f.name = some f) : Tok.F
 
 theorem fix_punct {tbl : Table} (hT : tbl.WellFormed) :
     Tok.Fix tbl .lp ∧ Tok.Fix tbl .rp ∧ Tok.Fix tbl .comma := by
-  obtain ⟨_, _, h1, h2, h3⟩ := hT
+  obtain ⟨_, _, h1, h2, h3, _⟩ := hT
   refine ⟨?_, ?_, ?_⟩ <;> simp [Tok.Fix, Tok.str, classify, h1, h2, h3]
 
 theorem map_fix {tbl : Table} {ts : List Tok} (h : ∀ t ∈ ts, Tok.Fix tbl t) :
@@ -122,6 +122,32 @@ theorem map_fix {tbl : Table} {ts : List Tok} (h : ∀ t ∈ ts, Tok.Fix tbl t) 
     have := h t (by simp)
     simp only [Tok.Fix] at this
     rw [this]
+
+/-- the classification of a string is a fixed point -/
+theorem classify_fix (tbl : Table) (s : String) : Tok.Fix tbl (classify tbl s) := by
+  unfold Tok.Fix classify
+  cases h : tbl.lookup s with
+  | some e =>
+    have hn := Table.lookup_name h
+    simp only [Tok.str, hn, h]
+  | none =>
+    by_cases h1 : s = "("
+    · subst h1; simp [Tok.str, h]
+    · by_cases h2 : s = ")"
+      · subst h2; simp [Tok.str, h]
+      · by_cases h3 : s = ","
+        · subst h3; simp [Tok.str, h]
+        · simp [h1, h2, h3, Tok.str, h]
+
+/-- elements produced by the classification are rows of the table -/
+theorem classify_el {tbl : Table} {s : String} {f : Elem} (h : classify tbl s = .el f) :
+    ∃ r ∈ tbl, Elem.ofRow r = f := by
+  unfold classify at h
+  cases hl : tbl.lookup s with
+  | some e => rw [hl] at h; simp only [Tok.el.injEq] at h; subst h; exact Table.lookup_mem hl
+  | none =>
+    rw [hl] at h; simp only at h
+    by_cases h1 : s = "(" <;> by_cases h2 : s = ")" <;> by_cases h3 : s = "," <;> simp [h1, h2, h3] at h
 
 /-- all tokens of a writing of a tree over the table are classified as themselves -/
 theorem Pr.fix {tbl : Table} (hT : tbl.WellFormed) {a b : Nat} {e : Expr} {ts : List Tok} (hp : Pr a b e ts) :
